@@ -539,6 +539,100 @@ fn ev_snf(c: &Case, rng: &mut StdRng, out: &mut Out, shape: usize) {
 }
 
 // ---------------------------------------------------------------------------------------------
+// Smith form as a presentation: groups with several invariant factors, the map generator -> coordinates
+// ---------------------------------------------------------------------------------------------
+
+/// Relation lattices of known quotient groups with 3..4 non-trivial invariant factors (diag(d) times a random unimodular
+/// matrix, plus redundant rows).  The event carries what `SmithNormalForm` returns as a presentation: the diagonal, the
+/// kept generators with their rows of the transformation matrix, the substitution relations of the removed ones.
+/// TLC rebuilds every generator's coordinates and checks that each input relation maps to zero (UniMatTrace!SnfHomOK).
+fn ev_snf_hom(rng: &mut StdRng, out: &mut Out, idx: usize) {
+    const GROUPS: [&[i64]; 12] = [&[6, 10, 15], &[2, 6, 12], &[4, 4, 8], &[2, 2, 2, 2], &[30, 30, 2], &[3, 9, 27], &[2, 4, 8, 16], &[6, 6, 6],
+                                  &[5, 10, 20, 3], &[12, 18, 30], &[2, 2, 4], &[15, 21, 35]];
+    let diag = GROUPS[idx % GROUPS.len()];
+    let n = diag.len() + (idx / GROUPS.len()) % 3;
+    let mut d = vec![1i64; n];
+    for (i, &x) in diag.iter().enumerate() {
+        d[n - diag.len() + i] = x;
+    }
+    let h: i64 = d.iter().product();
+    // unimodular by elementary row operations, entries kept small
+    let mut u = vec![vec![0i64; n]; n];
+    for i in 0..n {
+        u[i][i] = 1;
+    }
+    for _ in 0..4 * n {
+        let (i, j) = (rng.gen_range(0..n), rng.gen_range(0..n));
+        if i == j {
+            continue;
+        }
+        let k = if rng.gen_bool(0.5) { 1 } else { -1 };
+        let cand: Vec<i64> = (0..n).map(|c| u[i][c] + k * u[j][c]).collect();
+        if cand.iter().all(|x| x.abs() <= 40) {
+            u[i] = cand;
+        }
+    }
+    // columns mixed too (otherwise row i is just d[i] times a unimodular row): M = diag(d) * U, then column operations
+    let mut basis: Vec<Vec<i64>> = (0..n).map(|i| (0..n).map(|j| d[i] * u[i][j]).collect()).collect();
+    let mut rows: Vec<Vec<i64>> = vec![];
+    for _ in 0..rng.gen_range(0..4) {
+        let mut v = vec![0i64; n];
+        for b in &basis {
+            let k = rng.gen_range(-1..=1);
+            for c in 0..n {
+                v[c] += k * b[c];
+            }
+        }
+        if v.iter().any(|&x| x != 0) {
+            rows.push(v);
+        }
+    }
+    if idx % 2 == 0 {
+        let mut v = std::mem::take(&mut basis);
+        v.extend(rows);
+        rows = v;
+    } else {
+        rows.extend(std::mem::take(&mut basis));
+    }
+    let labels: Vec<u32> = (0..n as u32).map(|i| 3 + 2 * i).collect();
+    let rels: Vec<Vec<(u32, i32)>> = rows.iter().map(|v| v.iter().enumerate().filter(|(_, &x)| x != 0).map(|(i, &x)| (labels[i], x as i32)).collect()).collect();
+    let hf = h as f64;
+    let (hmin, hmax) = if idx % 3 == 0 { (hf * 0.97, hf * 1.04) } else { (hf * 0.9999, hf * 1.0001) };
+    let relsj: Vec<Value> = rels.iter().map(|r| Value::from(r.iter().map(|&(l, e)| json!([l, (e as i64).rem_euclid(h)])).collect::<Vec<_>>())).collect();
+    let ev = json!({"op": "snf_hom", "case": format!("snf_hom/{}", idx), "group": diag, "n": n, "h": h, "labels": labels, "rels": relsj,
+                    "exact_bounds": idx % 3 != 0});
+    let rels2 = rels.clone();
+    let r = guard(move || {
+        let mut s = SmithNormalForm::new(&rels2, vec![], hmin, hmax);
+        s.reduce();
+        let m = s.rows.len();
+        let wellformed = s.gens.len() == m && s.q.len() >= m && s.rows.iter().all(|r| r.len() >= m) && s.q.iter().take(m).all(|r| r.len() >= m);
+        let mut ds: Vec<i64> = vec![];
+        let mut offdiag_zero = true;
+        let mut q: Vec<Vec<i64>> = vec![];
+        if wellformed {
+            for i in 0..m {
+                for j in 0..m {
+                    if i != j && s.rows[i][j] != 0 {
+                        offdiag_zero = false;
+                    }
+                }
+                ds.push(s.rows[i][i].clamp(-1, 1 << 30) as i64);
+            }
+            for i in 0..m {
+                q.push((0..m).map(|j| if ds[j] > 0 { s.q[i][j].rem_euclid(ds[j] as i128) as i64 } else { 0 }).collect());
+            }
+        }
+        let removed: Vec<Value> = s.removed.iter().map(|(p, rel)| json!([p, rel.iter().map(|&(l, e)| json!([l, e.rem_euclid(h as i128) as i64])).collect::<Vec<_>>()])).collect();
+        json!({"wellformed": wellformed, "hh": s.h.min(1 << 30) as u64, "ds": ds, "offdiag_zero": offdiag_zero, "gens": s.gens, "q": q, "removed": removed})
+    });
+    out.ev(match r {
+        Ok(v) => merge(ev, v),
+        Err(e) => merge(ev, e),
+    });
+}
+
+// ---------------------------------------------------------------------------------------------
 // Berlekamp-Massey on sequences with a known recurrence
 // ---------------------------------------------------------------------------------------------
 
@@ -607,6 +701,9 @@ pub fn run(args: &Args) -> i32 {
     let shapes = read_ndjson(arg_str(args, "shapes", "shapes.ndjson"));
     let mats: Vec<&Value> = shapes.iter().filter(|s| s["kind"] == "mat").collect();
     let bms: Vec<&Value> = shapes.iter().filter(|s| s["kind"] == "bm").collect();
+    for idx in 0..(if thorough { 1200 } else { 240 }) {
+        ev_snf_hom(&mut rng, &mut out, idx);
+    }
     let mut si = 0;
     for (bi, b) in behs.iter().enumerate() {
         let c = case_from(bi, b);
